@@ -49,7 +49,9 @@ def _nested(code):
 class LineObserver:
     def __init__(self, specs):
         self.specs = list(specs)
-        self.codes = {}   # code -> spec
+        self.codes = {}   # id(code) -> spec  (code objects compare by value, not identity: two classes with the same
+        #                   two-line __init__ at the same line number of different files would collide as dict keys)
+        self._keep = []   # the code objects themselves, so that the ids stay valid
         self.seen = {}    # spec -> set(lines)
         self.total = {}   # spec -> set(lines)
         self.active = False
@@ -67,19 +69,20 @@ class LineObserver:
             tot = self.total.setdefault(spec, set())
             for top in codes:
                 for c in _nested(top):
-                    self.codes[c] = spec
+                    self.codes[id(c)] = spec
+                    self._keep.append(c)
                     tot.update(l for (_, _, l) in c.co_lines() if l is not None and l != c.co_firstlineno)
         try:
             mon.use_tool_id(TOOL, "verif-lines")
         except ValueError:
             return
         mon.register_callback(TOOL, mon.events.LINE, self._line)
-        for c in self.codes:
+        for c in self._keep:
             mon.set_local_events(TOOL, c, mon.events.LINE)
         self.active = True
 
     def _line(self, code, line):
-        spec = self.codes.get(code)
+        spec = self.codes.get(id(code))
         if spec is not None:
             self.seen[spec].add(line)
         return sys.monitoring.DISABLE
@@ -87,7 +90,7 @@ class LineObserver:
     def stop(self):
         if self.active:
             mon = sys.monitoring
-            for c in self.codes:
+            for c in self._keep:
                 mon.set_local_events(TOOL, c, 0)
             mon.register_callback(TOOL, mon.events.LINE, None)
             mon.free_tool_id(TOOL)
